@@ -146,11 +146,15 @@ class StartTaskHandler(StabilizeHandler[StartTask]):
                     )
                 )
 
-            if self.event_recorder:
-                self.set_event_context(stage.execution.id)
-                self.event_recorder.record_task_started(
-                    task_model, stage.execution.id, source_handler="StartTaskHandler"
-                )
+                # Recorded INSIDE the store transaction, like the completion
+                # events: appended after the commit, a worker that is preempted
+                # here could log task.started after another worker's
+                # task.completed and replay would leave the task RUNNING.
+                if self.event_recorder:
+                    self.set_event_context(stage.execution.id)
+                    self.event_recorder.record_task_started(
+                        task_model, stage.execution.id, source_handler="StartTaskHandler"
+                    )
 
             logger.debug(
                 "Started task %s (%s) in stage %s",
